@@ -105,8 +105,9 @@ def main():
                 assert not out.strip(), "could not restore /repo: " + out
     dst = os.path.join(VERIF, "seeded", sid)
     os.makedirs(dst, exist_ok=True)
-    shutil.copy(patch, os.path.join(dst, "patch.diff"))
-    shutil.copy(demo, os.path.join(dst, "demo.py"))
+    for f, name in ((patch, "patch.diff"), (demo, "demo.py")):
+        if os.path.abspath(f) != os.path.abspath(os.path.join(dst, name)):  # (re-evaluating a stored change in place)
+            shutil.copy(f, os.path.join(dst, name))
     meta.update({"seed_id": sid, "confirmed": confirmed, "confirmation": conf, "checks": results,
                  "detected": any(r["exit"] == 1 for r in results.values()),
                  "ran": "tools/eval_seed.py: pytest in a scratch worktree with the patch, demo.py with/without the patch, ./check " + prop + " --tier quick against " + ("a scratch worktree carrying the patch (VERIF_REPO)" if in_wt else "/repo with the patch applied (git -C /repo apply), undone afterwards (git -C /repo checkout -- .)")})
